@@ -17,9 +17,15 @@ META = {
                    'dominated by the not-erroneous edge of the covering node, every other path returns Err; (R3) the returned range is range() of the '
                    'very node that is cast and handed to the converter, the converter is selected by that node\'s own cast, the mode comes from the same '
                    'cover search, the text is rendered from that document with the configured width and nested by the source-derived indentation; '
-                   '(R4) the partial operations only the range entry reaches are discharged (clamped-range argument, guards, axiom table).',
-    'decides': 'no panic for arbitrary (start <= end) ranges on character boundaries, refusal on erroneous covers, range/text consistency',
-    'does_not_decide': 'that splicing the returned text re-parses to an equivalent tree (behavioural, C01/C04-like)',
+                   '(R4) the partial operations only the range entry reaches are discharged (clamped-range argument, guards, axiom table); '
+                   '(R5) sibling cross-check of the two places that decide a node\'s syntactic mode: the cover search is evaluated abstractly for every (node kind, '
+                   'incoming mode, preceded-by-# or not), the printer\'s converters are evaluated (E2, context tracked) for every incoming mode, and a simulation over '
+                   '(kind, converter, printer mode, cover mode) from the document root requires that wherever the cover search can stop, its mode equals the printer\'s '
+                   'or differs only in a way that adds redundant grouping parentheses.',
+    'decides': 'no panic for arbitrary (start <= end) ranges on character boundaries, refusal on erroneous covers, range/text consistency, and that the selected node is '
+               'converted in the syntactic mode the whole-document formatter would use for it',
+    'does_not_decide': 'that splicing the returned text re-parses to an equivalent tree in general (behavioural, C01/C04-like); in particular the indentation inferred for the '
+                       'continuation lines (a list-item body is re-indented by the count of leading blanks, not by the column of its first token)',
     'trusted_base': ['typst_syntax::LinkedNode::range is the node\'s byte range', 'str::trim_end/trim_start return sub-slices on character boundaries',
                      'axiom table (lib/rules/c13.py)', 'rustc MIR construction'],
 }
@@ -354,8 +360,474 @@ def _all_callers_clamp(w, b):
     return True
 
 
-RULES = [r1_clamp_before_slice, r2_refusal, r3_consistency, r4_range_only_partial_ops]
+# ---------------------------------------------------------------------------------------------
+# R5: the cover search and the printer agree on the mode of every node (simulation over (kind, printer mode, cover mode))
+# ---------------------------------------------------------------------------------------------
+MODES = ['Markup', 'Code', 'CodeCont', 'Math']
+# (mode the cover search hands to the range converter, mode the whole-document printer uses for the same node): harmless differences.
+# Markup is the most conservative code-ish mode (a multi-line chain is wrapped in parentheses), Code wraps where CodeCont need not:
+# the only effect is a redundant pair of grouping parentheses, which tree equivalence (C01) discards.
+SAFE = {('Markup', 'Code'): 'redundant grouping parentheses only', ('Markup', 'CodeCont'): 'redundant grouping parentheses only',
+        ('Code', 'CodeCont'): 'redundant grouping parentheses only'}
+MODE_ADT = 'typstyle_core::pretty::context::Mode'
+
+
+def _mode_val(m):
+    from kindflow import Agg
+    return Agg(MODE_ADT, m, [])
+
+
+def _mode_of(v):
+    from kindflow import Agg, Ref
+    if isinstance(v, Agg) and v.adt.endswith('context::Mode') and v.variant:
+        return v.variant
+    return None
+
+
+def _cover_fn(w):
+    bs = []
+    for b in w.fn_bodies(w.core):
+        if b.def_kind == 'Closure':
+            continue
+        tys = [b.locals[i]['ty']['s'] for i in range(1, b.arg_count + 1)]
+        if any(t.startswith('typst_syntax::LinkedNode') for t in tys) and any(t.endswith('context::Mode') for t in tys) \
+                and b.locals[0]['ty']['s'].startswith('std::option::Option<(typst_syntax::Span, pretty::context::Mode)>'):
+            bs.append(b)
+    if len(bs) != 1:
+        raise AnchorMissing('cover search (fn(LinkedNode, Mode) -> Option<(Span, Mode)>): %s' % [b.short for b in bs])
+    return bs[0]
+
+
+def _eligible(g):
+    """kinds a covering node can have: Markup, or castable to Expr / Pattern"""
+    ks = set(g['kinds_of'].get('Markup', [])) | set(g['kinds_of'].get('Expr', [])) | set(g['kinds_of'].get('Pattern', []))
+    return ks
+
+
+def cover_transitions(w):
+    """{(K, m_in, prev_is_hash): set(modes handed to the recursive call for the child after prev)} by abstract evaluation of the cover search"""
+    import grammar
+    import kindflow as kf
+    import sites as sm
+    from kindflow import Agg, Node
+    b = _cover_fn(w)
+    node_p = [i for i in range(1, b.arg_count + 1) if b.locals[i]['ty']['s'].startswith('typst_syntax::LinkedNode')][0]
+    mode_p = [i for i in range(1, b.arg_count + 1) if b.locals[i]['ty']['s'].endswith('context::Mode')][0]
+
+    def hook(ip, m, f, t, args):
+        if resolved_id(t) == b.id:
+            vals = [ip.load(a) if isinstance(a, kf.Ref) else a for a in args]
+            md = None
+            for v in vals:
+                if _mode_of(v):
+                    md = _mode_of(v)
+            m.events.append(('rec', md))
+            return Agg('core::option::Option', 'None', [])
+        return None
+    out = {}
+    for K in sorted(grammar.CHILDREN):
+        kids = grammar.CHILDREN[K]
+        for m_in in MODES:
+            for prev in ('Hash', 'Space'):
+                res = sm.evaluate_sequence(w, b, node_p, K, [Node('child', prev), Node('child', 'FuncCall')], no_inline=lambda tb: False,
+                                           extra={mode_p: _mode_val(m_in)}, hooks={'rec': hook})
+                modes = set()
+                for item in res or []:
+                    steps = item[1]
+                    if len(steps) >= 2:
+                        for e in steps[1]:
+                            if e[0] == 'rec':
+                                modes.add(e[1])
+                out[(K, m_in, prev == 'Hash')] = modes if res else None
+    return b, out
+
+
+def _ctx_changing(w):
+    """ids of core functions (closures attributed to their owner) that build or modify a Context or read its mode"""
+    core = w.core
+    out = set()
+    for b in w.fn_bodies(core):
+        hit = False
+        for bi, t in b.calls():
+            p = resolved_path(t) or callee_path(t) or ''
+            if re.search(r'context::\{impl#\d+\}::with_mode(_if)?$|Context::with_mode(_if)?$', p):
+                hit = True
+        for blk in b.blocks:
+            for s in blk['stmts']:
+                if s['s'] == 'assign' and s['rv']['r'] == 'agg' and (s['rv'].get('adt') or '').endswith('context::Context'):
+                    hit = True
+        # ... or look at the mode (mode-dependent dispatch such as `if ctx.mode.is_math()`)
+        if any(l['ty']['s'].replace('&', '').strip() == 'pretty::context::Mode' for l in b.locals):
+            hit = True
+        if hit and not b.short.startswith('pretty::context::'):
+            owner = b
+            while owner.def_kind == 'Closure' and owner.parent in w.bodies:
+                owner = w.bodies[owner.parent]
+            out.add(owner.id)
+    return out
+
+
+def _mode_if_labels(assumed):
+    return [a[4] for a in assumed if len(a) > 4 and a[0].endswith('::with_mode_if') and isinstance(a[4], bool)]
+
+
+_PT = {}
+
+
+def _pt_task(task):
+    """one (converter, parent kind, incoming mode) evaluation; runs in a forked worker (the world is inherited copy-on-write)"""
+    import sites as sm
+    from kindflow import Node
+    w, se, elig = _PT['w'], _PT['se'], _PT['elig']
+    bid, i, K, m_in = task
+    b = w.bodies[bid]
+    pv = None
+    en = grammar_enum_param(b, i)
+    if en:
+        import kindflow as kf
+        pv = kf.Interp(w).typed(en, Node('parent', K))
+    outs, wholes = se.evaluate(b, i, K, ctx_mode=m_in, param_val=pv)
+    if outs is None:
+        return task, None
+    res = {}
+    for o in outs:
+        x = o.items[-1] if o.items else None
+        labs = _mode_if_labels(o.assumed)
+        cond = None if not labs else (labs[-1] if len(set(labs)) == 1 else 'mixed')
+        for (fn, node, mode, supp) in o.converts or []:
+            if isinstance(node, Node) and node.tag.startswith('child') and x is not None and node.kind == x.kind:
+                res.setdefault((K, m_in, cond, node.kind), set()).add((mode, fn))
+            elif isinstance(node, Node) and node.tag == 'parent':
+                res.setdefault((K, m_in, cond, '<self>'), set()).add((mode, fn))
+            elif not isinstance(node, Node):
+                res.setdefault((K, m_in, cond, '?'), set()).add((mode, fn))
+    for wh in wholes or []:
+        labs = _mode_if_labels(wh.assumed)
+        cond = None if not labs else (labs[-1] if len(set(labs)) == 1 else 'mixed')
+        for (fn, node, mode, supp) in wh.converts or []:
+            if isinstance(node, Node) and node.tag == 'parent':
+                k = '<self>'
+            elif isinstance(node, Node) and node.kind and not node.tag.startswith('child'):
+                k = node.kind
+            elif isinstance(node, Node):
+                continue        # loop items on complete paths are judged per iteration above
+            else:
+                k = '?'
+            res.setdefault((K, m_in, cond, k), set()).add((mode, fn))
+    return task, res
+
+
+ENUMS = ('Expr', 'Pattern', 'Arg', 'Param', 'ArrayItem', 'DictItem', 'DestructuringItem')
+
+
+def grammar_enum_param(b, i):
+    import grammar
+    n = grammar.ast_type_name(b.locals[i]['ty'])
+    return n if n in ENUMS else None
+
+
+def _all_converters(w, se):
+    """the typed converters of the site evaluator plus the dispatchers whose node parameter is one of the AST enums"""
+    import grammar
+    import kindflow as kf
+    g = grammar.load()
+    out = list(se.converters())
+    have = {b.id for b, i, k in out}
+    for b in w.fn_bodies(w.core):
+        if b.def_kind == 'Closure' or b.id in have or not b.short.startswith('pretty::') or not kf.default_converter_pred(b):
+            continue
+        for i in range(1, b.arg_count + 1):
+            en = grammar_enum_param(b, i)
+            if en:
+                out.append((b, i, sorted(g['kinds_of'].get(en, []))))
+                break
+    return out
+
+
+def _pt_seq(task):
+    """two-step sequence <prev, x0> with a Math context: the modes handed to x0"""
+    import sites as sm
+    from kindflow import Node
+    w = _PT['w']
+    bid, i, K, prev, x0 = task
+    b = w.bodies[bid]
+    res = sm.evaluate_sequence(w, b, i, K, [Node('child', prev), Node('child', x0)], ctx=sm.context('Math', None), with_wholes=True, max_paths=6000,
+                               no_inline=lambda tb: (tb.short.endswith('::print_doc') or tb.short.endswith('collect_markup_repr') or 'get_fold_style' in tb.short
+                                                     or tb.short.startswith('attr::') or tb.short.endswith('has_comment_children')) and tb.id != b.id)
+    if res is None:
+        return task, None
+    modes = set()
+    for loop, steps, assumed, items in res:
+        if loop is None or len(steps) < 2:
+            continue
+        for e in steps[1]:
+            if e[0] == 'convert' and isinstance(e[2], Node) and e[2].tag == 'child' and e[2].kind == x0:
+                modes.add(e[3])
+    return task, modes
+
+
+def printer_transitions(w):
+    """{(K, m_in, cond, X): set(modes the printer hands to the conversion of child X)} where cond is the value of the
+    condition of Context::with_mode_if on that path (None when the path does not pass one); only converters whose own code
+    (helpers and closures included, other converters excluded) builds or modifies a Context are evaluated - every other converter
+    passes the context it received on (there is nothing in its code that could change it).
+    Also returns, per site with Hash children, the modes handed to the child after a Hash / after a Space (two-step sequences)."""
+    import hashlib, os, pickle
+    import multiprocessing as mp
+    import grammar
+    import kindflow as kf
+    import sites as sm
+    g = grammar.load()
+    here = os.path.dirname(os.path.dirname(os.path.abspath(__file__)))
+    h = hashlib.sha256()
+    for fn in ('sites.py', 'kindflow.py', 'grammar.py', 'cfg.py', 'paths.py', 'prov.py', 'mirfacts.py', 'effects.py', 'rules/c13.py', '../tables/typst_syntax_0.13.1.json'):
+        h.update(open(os.path.join(here, fn), 'rb').read())
+    cache = os.path.join(w.facts_dir, 'modes-%s.pickle' % h.hexdigest()[:16])
+    if os.path.exists(cache):
+        try:
+            with open(cache, 'rb') as fh:
+                return pickle.load(fh)
+        except Exception:
+            pass
+    se = sm.SiteEvaluator(w)
+    changing = _ctx_changing(w)
+    edges, _ = w.callgraph()
+
+    def reach(b):
+        seen, work = set(), [b.id]
+        while work:
+            x = work.pop()
+            if x in seen or x not in w.bodies:
+                continue
+            seen.add(x)
+            for y in edges.get(x, ()):
+                yb = w.bodies.get(y)
+                if yb is None or yb.crate is not w.core:
+                    continue
+                if y != b.id and kf.default_converter_pred(yb):
+                    continue
+                work.append(y)
+        return seen
+    elig = _eligible(g)
+    evaluated, passthrough, tasks, seqtasks, ptasks = [], [], [], [], []
+    for b, i, kinds in _all_converters(w, se):
+        rs = reach(b)
+        if not (rs & changing):
+            passthrough.append((b.short, kinds))
+            for K in kinds:
+                ptasks.append((b.id, i, K, 'Markup'))
+            continue
+        evaluated.append(b.short)
+        uses_if = any(re.search(r'with_mode_if$', resolved_path(t) or callee_path(t) or '') for x in rs for bi, t in w.bodies[x].calls())
+        for K in kinds:
+            for m_in in MODES:
+                tasks.append((b.id, i, K, m_in))
+            if uses_if and 'Hash' in grammar.CHILDREN.get(K, []):
+                kids = [k for k in grammar.CHILDREN.get(K, []) if k in elig]
+                x0 = 'FuncCall' if 'FuncCall' in kids else (kids[0] if kids else None)
+                if x0:
+                    for prev in ('Hash', 'Space'):
+                        seqtasks.append((b.id, i, K, prev, x0))
+    _PT.update(w=w, se=se, elig=elig)
+    out, failed, seqs = {}, [], {}
+    ctx = mp.get_context('fork')
+    with ctx.Pool(min(14, os.cpu_count() or 4)) as pool:
+        for task, res in pool.imap_unordered(_pt_task, tasks, chunksize=1):
+            if res is None:
+                failed.append((w.bodies[task[0]].short,) + task[2:])
+                continue
+            for k, v in res.items():
+                out.setdefault((w.bodies[task[0]].short,) + k, set()).update(v)
+        for task, modes in pool.imap_unordered(_pt_seq, seqtasks, chunksize=1):
+            seqs[(w.bodies[task[0]].short, task[2], task[3], task[4])] = modes
+        passkids = {}
+        for task, res in pool.imap_unordered(_pt_task, ptasks, chunksize=1):
+            fn = w.bodies[task[0]].short
+            if res is None:
+                failed.append((fn,) + task[2:])
+                continue
+            for (K, m_in, cond, X), v in res.items():
+                passkids.setdefault((fn, K, X), set()).update(c for (m, c) in v if m is not None)
+    _PT.clear()
+    kinds_of_fn = {b.short: kinds for b, i, kinds in _all_converters(w, se)}
+    result = (out, evaluated, passthrough, failed, seqs, passkids, kinds_of_fn)
+    try:
+        with open(cache, 'wb') as fh:
+            pickle.dump(result, fh)
+    except Exception:
+        pass
+    return result
+
+
+def r5_mode_agreement(w):
+    r = RuleResult('C13.R5', 'the cover search hands the range converter the mode the whole-document printer uses for the same node (simulation over kind x converter x printer mode x cover mode)', floor=60)
+    import grammar
+    import sites as sm
+    g = grammar.load()
+    cb, cov = cover_transitions(w)
+    pr, evaluated, passthrough, failed, seqs, passkids, kinds_of_fn = printer_transitions(w)
+    for f in failed:
+        r.bad({'printer_site': f[0], 'parent': f[1], 'mode': f[2]}, 'mode|not-evaluated|%s|%s' % (last(f[0]), f[1]), 'the printer\'s mode transitions of %s could not be evaluated within bounds' % f[0])
+    ev = set(evaluated)
+    # the condition of with_mode_if is "the previous sibling is a Hash" (checked where the grammar admits a Hash child)
+    link_ok = True
+    for (fn, K, prev, x0), modes in sorted(seqs.items()):
+        want = set()
+        for cond in ((True, None) if prev == 'Hash' else (False, None)):
+            want |= {m for (m, c) in pr.get((fn, K, 'Math', cond, x0), set())}
+        cons = {'printer_site': last(fn), 'parent': K, 'previous_sibling': prev, 'child': x0, 'modes': sorted(map(str, modes or []))}
+        if modes is not None and modes and modes <= want:
+            r.ok(cons, 'with_mode_if condition == previous sibling is Hash')
+        else:
+            link_ok = False
+            r.note('with_mode_if at %s (%s) is not tied to a preceding Hash (%s vs %s): both values are assumed for every child' % (last(fn), K, modes, want))
+    elig = _eligible(g)
+    inner = set(grammar.CHILDREN)
+    code_only = set(grammar.CODE_EXPR) - set(grammar.MATH_EXPR)
+    math_only = set(grammar.MATH_EXPR) - set(grammar.CODE_EXPR)
+    math_ok = set(grammar.MATH_EXPR) | {'Args', 'Named', 'Spread'}
+
+    def transitions(fn, K, m_p):
+        """[(cond, Xkey, mode, callee)] of converter fn on a K node entered with mode m_p"""
+        out = []
+        if fn in ev:
+            for cond in (None, True, False, 'mixed'):
+                for xk in list(grammar.CHILDREN.get(K, [])) + [x for fk in sm.FLATTEN.get(K, []) for x in grammar.CHILDREN.get(fk, [])] + ['<self>', '?']:
+                    for (mode, callee) in pr.get((fn, K, m_p, cond, xk), ()):
+                        if mode is not None:
+                            out.append((cond, xk, mode, callee))
+        else:
+            for (f2, K2, xk), callees in passkids.items():
+                if f2 == fn and K2 == K:
+                    for callee in callees:
+                        out.append((None, xk, m_p, callee))
+        return out
+
+    def feasible(K, m_p, hash_prev, X, has_hash):
+        # which children the parser can produce (grammar table): after `#` an embedded code expression, and that only in markup and math;
+        # otherwise the expressions of the parent's own syntactic mode
+        if K == 'Markup':
+            if hash_prev:
+                return X in grammar.CODE_EXPR
+            return X not in set(grammar.CODE_EXPR) - set(grammar.MARKUP_EXPR)
+        if has_hash:
+            if hash_prev:
+                return m_p == 'Math' and X in grammar.CODE_EXPR
+            return not ((m_p == 'Math' and X not in math_ok) or (m_p != 'Math' and X in math_only))
+        if m_p == 'Math' and X not in math_ok:
+            return False          # in math, anything but math expressions (and the argument structure of math calls) occurs only directly after `#`
+        return not hash_prev
+
+    entry = [b for b in w.fn_bodies(w.core) if b.short.endswith('::convert_markup') and b.def_kind != 'Closure']
+    if len(entry) != 1:
+        raise AnchorMissing('convert_markup')
+    start = ('Markup', entry[0].short, 'Markup', 'Markup')
+    seen, work = {start}, [start]
+    pred = {start: None}
+    reported = {}
+    unknown_fns = set()
+    n_edges = 0
+
+    def compare(K, X, hash_prev, c, p, incoming, via):
+        nonlocal n_edges
+        n_edges += 1
+        if c == p or (c, p) in SAFE:
+            return True
+        key = 'mode|%s|%s|cover=%s|printer=%s' % (K, 'after-hash' if hash_prev else 'plain', c, p)
+        reported.setdefault(key, {'parent': K, 'after_hash': hash_prev, 'cover_mode': c, 'printer_mode': p, 'incoming': incoming, 'printer_site': last(via), 'children': []})
+        reported[key]['children'].append(X)
+        return False
+
+    while work:
+        K, fn, m_p, m_c = work.pop()
+        if fn not in kinds_of_fn:
+            unknown_fns.add(fn)
+            continue
+        kids = list(grammar.CHILDREN.get(K, []))
+        flat = {x: fk for fk in sm.FLATTEN.get(K, []) for x in grammar.CHILDREN.get(fk, [])}
+        has_hash = 'Hash' in kids
+        for (cond, xk, p, callee) in transitions(fn, K, m_p):
+            if xk == '<self>':
+                # the same node handed on (dispatcher, wrapper): the cover search entered with m_c, the printer continues with p
+                if K in elig and not compare(K, K, False, m_c, p, (m_p, m_c), fn):
+                    continue
+                nxt = (K, callee, p, m_c)
+                if nxt not in seen:
+                    seen.add(nxt)
+                    pred[nxt] = ((K, fn, m_p, m_c), 'self', cond)
+                    work.append(nxt)
+                continue
+            if xk == '?':
+                ck = kinds_of_fn.get(callee, [])
+                xs = [x for x in ck if x in kids or x in flat] or ([K] if K in ck else [x for x in ck if x in inner][:6])
+            else:
+                xs = [xk]
+            for X in xs:
+                if X not in inner and X not in elig:
+                    continue
+                hp = {True, False} if (cond in (None, 'mixed') or not link_ok) else {cond}
+                if not has_hash:
+                    hp &= {False}
+                for hash_prev in sorted(hp):
+                    if not feasible(K, m_p, hash_prev, X, has_hash):
+                        continue
+                    if X == K and xk == '?':
+                        cs = {m_c}
+                    elif X in flat and X not in kids:
+                        cs = set()
+                        for c1 in (cov.get((K, m_c, False)) or []):
+                            cs |= (cov.get((flat[X], c1, hash_prev)) or set())
+                    else:
+                        cs = cov.get((K, m_c, hash_prev))
+                    if not cs:
+                        key = 'mode|cover-not-evaluated|%s' % K
+                        if key not in reported:
+                            reported[key] = True
+                            r.bad({'parent': K, 'mode': m_c}, key, 'the cover search could not be evaluated for a %s node' % K, cb.loc())
+                        continue
+                    for c in cs:
+                        if X in elig and not compare(K, X, hash_prev, c, p, (m_p, m_c), fn):
+                            continue
+                        nxt = (X, callee, p, c)
+                        if X in inner and nxt not in seen:
+                            seen.add(nxt)
+                            pred[nxt] = ((K, fn, m_p, m_c), xk, cond, hash_prev)
+                            work.append(nxt)
+    import os
+    if os.environ.get('C13_TRACE'):
+        for st in sorted(seen):
+            if st[2] != st[3] and (st[3], st[2]) not in SAFE:
+                chain = []
+                x = st
+                while x is not None and len(chain) < 12:
+                    chain.append((x[0], last(x[1]), x[2], x[3], pred[x][1:] if pred.get(x) else None))
+                    x = pred[x][0] if pred.get(x) else None
+                print('TRACE', chain)
+                break
+    for key, d in sorted(reported.items()):
+        if d is True:
+            continue
+        ch = sorted(set(d['children']))
+        r.bad({k: v for k, v in d.items() if k != 'children'} | {'children': len(ch)}, key,
+              'a %s child of a %s node%s is converted in %s mode by the whole-document printer (%s) but the cover search of range formatting hands it to the converter in %s mode '
+              '(e.g. child kinds %s): the returned text is laid out for the wrong syntactic context (code arguments printed in math style, or a multi-line method chain without '
+              'the parentheses markup needs), so splicing it back changes the tree or no longer parses'
+              % ('/'.join(ch[:3]), d['parent'], ' that follows a `#`' if d['after_hash'] else '', d['printer_mode'], d['printer_site'], d['cover_mode'], ch[:4]), cb.loc())
+    for (K, fn, m_p, m_c) in sorted(seen):
+        r.ok({'kind': K, 'converter': last(fn), 'printer_mode': m_p, 'cover_mode': m_c}, 'reachable state: equal or harmlessly weaker (%s)' % (SAFE.get((m_c, m_p), 'equal')))
+    if unknown_fns:
+        r.note('converters whose parent kinds are unknown (their children are not followed): %s' % sorted(last(x) for x in unknown_fns))
+    r.note('%d reachable (kind, converter, printer mode, cover mode) states, %d mode pairs compared; %d converters evaluated for mode changes, %d pass their context on unchanged'
+           % (len(seen), n_edges, len(evaluated), len(passthrough)))
+    return r
+
+
+def last(s):
+    return s.rsplit('::', 1)[-1]
+
+
+RULES = [r1_clamp_before_slice, r2_refusal, r3_consistency, r4_range_only_partial_ops, r5_mode_agreement]
 for _f in RULES:
     _f.needs = ('core',)
-MATRIX_RULES = RULES
+MATRIX_RULES = [r1_clamp_before_slice, r2_refusal, r3_consistency, r4_range_only_partial_ops]
 EXTRA_CONFIGS = ['core-serde']
